@@ -22,3 +22,7 @@ open Golem.Props.C06
 #print axioms fmap_try_sel
 #print axioms forEach_sel
 #print axioms void_sel
+#print axioms throttling_no_panic
+#print axioms throttling_prefix
+#print axioms throttling_closes
+#print axioms throttling_cancel_terminates
